@@ -1,20 +1,37 @@
-(* C22 reduced model: a subset of the CR state changes, issued through the
-   shared history model (lib/History.v: [change], [do_all], [undo_order] — the
-   forward-order undo of HeightChanges.rollback) with the same (do, undo) pairs
-   as the Go closures.
+(* C22 reduced model: CR state changes issued through the shared history model
+   (lib/History.v: [change], [do_all], [undo_order] — the forward-order undo of
+   HeightChanges.rollback) with the same (do, undo) pairs as the Go closures.
 
-   The state is a memory of integer cells (absent = 0); the cells stand for
-     votes i      Candidate.Votes of candidate i           (cr/state/state.go processVoteCRC,
-                                                            committeeaction.go processVoteCancel)
-     cstate i     Candidate.State                           (state.go unregisterCR)
-     cancelh i    Candidate.CancelHeight                    (state.go unregisterCR)
-     review p m   ProposalState.CRVotes[m] + 1, 0 = absent  (proposalmanager.go proposalReview)
-     used         CRCCommitteeUsedAmount                    (committeeaction.go processCRCAddressRelatedTx,
-                                                            Committee.proposalTracking)
-   Every closure is built from the state BEFORE the block ([mk_changes s]) and
-   executed at Commit; additive closures undo by the opposite addition,
-   assignments undo by assigning the value captured before the block — except
-   CancelHeight, which the Go undo resets to the literal 0.
+   The state is a memory of integer cells (absent = 0).  A Go closure pair is a
+   list of primitive field changes of four shapes:
+     Add k d            x += d            / x -= d
+     Assign k v old     x = v             / x = old     (old captured or a literal)
+     AddRestore k d old x += d            / x = old     (DepositAmount -= Min / = ori)
+     Restore k old      —                 / x = old     (BudgetsStatus = oriBudgetsStatus
+                                                         re-installs untouched stages too;
+                                                         FinalPaymentStatus = false)
+   One entry of the log is one HeightChanges of one of the committee's
+   histories (state, manager, committee, ...): a block is a sequence of
+   entries with the same height, each built from the state left by the previous
+   one.  RollbackTo undoes the entries above the target, last committed first.
+   (The node undoes the inactive-member history after the state history although
+   it commits it after the committee history; the model keeps commit order.)
+
+   Cells ([cell class index]) and the closures modelled:
+     votes i, cstate i, cancelh i        candidates: processVoteCRC / processVoteCancel,
+                                         unregisterCR (CancelHeight undo is the literal 0)
+     review p m, reject p                proposalReview, processVoteCRCProposal
+     used                                CRCCommitteeUsedAmount (+= budgets, -= unused)
+     track p, pstatus p, final p, termh p, bstat p s, wable p s, wn p s, wtx t
+                                         proposalTracking (all kinds), proposalWithdraw,
+                                         abortProposal
+     imp m, mstate m, penalty m, deposit m, inelect, lastvote
+                                         processImpeachment, transferCRMemberState,
+                                         terminateCRMember, tryStartVotingPeriod
+     any cells                           TxAssignMany: "capture the old value, assign a new
+                                         one" over a set of fields — the shape of the
+                                         committee-change closures (Members, Candidates,
+                                         Nicknames, session, used amount, ...)
    Executable, no proofs here. *)
 From Coq Require Import ZArith Bool List.
 From ELA Require Import lib.History.
@@ -30,30 +47,90 @@ Fixpoint get (k : Z) (m : mem) : Z :=
 Definition put (k v : Z) (m : mem) : mem := (k, v) :: m.
 
 Inductive chg :=
-| Add (k d : Z)            (* x += d        / x -= d *)
-| Assign (k v old : Z).    (* x = v         / x = old *)
+| Add (k d : Z)
+| Assign (k v old : Z)
+| AddRestore (k d old : Z)
+| Restore (k old : Z).
 
 Definition ch_do (c : chg) (m : mem) : mem :=
-  match c with Add k d => put k (get k m + d) m | Assign k v _ => put k v m end.
+  match c with
+  | Add k d => put k (get k m + d) m
+  | Assign k v _ => put k v m
+  | AddRestore k d _ => put k (get k m + d) m
+  | Restore _ _ => m
+  end.
 Definition ch_undo (c : chg) (m : mem) : mem :=
-  match c with Add k d => put k (get k m - d) m | Assign k _ old => put k old m end.
+  match c with
+  | Add k d => put k (get k m - d) m
+  | Assign k _ old => put k old m
+  | AddRestore k _ old => put k old m
+  | Restore k old => put k old m
+  end.
 Definition to_change (c : chg) : change mem := Change (ch_do c) (ch_undo c).
 
 (* cells *)
-Definition votes (i : Z) := 10 * i + 1.
-Definition cstate (i : Z) := 10 * i + 2.
-Definition cancelh (i : Z) := 10 * i + 3.
-Definition review (p m : Z) := 10 * (100 * p + m) + 4.
-Definition used := 5.
+Definition cell (cls idx : Z) : Z := 64 * idx + cls.
+Definition votes (i : Z) := cell 1 i.
+Definition cstate (i : Z) := cell 2 i.
+Definition cancelh (i : Z) := cell 3 i.
+Definition review (p m : Z) := cell 4 (256 * p + m).
+Definition used := cell 5 0.
+Definition track (p : Z) := cell 6 p.
+Definition pstatus (p : Z) := cell 7 p.
+Definition final (p : Z) := cell 8 p.
+Definition termh (p : Z) := cell 9 p.
+Definition bstat (p s : Z) := cell 10 (256 * p + s).
+Definition wable (p s : Z) := cell 11 (256 * p + s).     (* amount + 1, 0 = absent *)
+Definition wn (p s : Z) := cell 12 (256 * p + s).        (* amount + 1, 0 = absent *)
+Definition wtx (t : Z) := cell 13 t.
+Definition mstate (m : Z) := cell 14 m.
+Definition imp (m : Z) := cell 15 m.
+Definition penalty (m : Z) := cell 16 m.
+Definition deposit (m : Z) := cell 17 m.
+Definition inelect := cell 18 0.
+Definition lastvote := cell 19 0.
+Definition reject (p : Z) := cell 20 p.
+
 Definition Canceled := 2.
+(* BudgetStatus *)
+Definition Unfinished := 0. Definition Withdrawable := 1. Definition Withdrawn := 2.
+Definition Rejected := 3. Definition Closed := 4.
+(* ProposalStatus *)
+Definition Finished := 3. Definition Terminated := 6. Definition Aborted := 7.
+(* tracking types *)
+Definition TProgress := 1. Definition TRejected := 2. Definition TTerminated := 3.
+Definition TChangeOwner := 4. Definition TFinalized := 5.
+(* MemberState *)
+Definition MImpeached := 1. Definition MTerminated := 2.
+Definition MinDeposit := 500000000000.
 
 Inductive tx :=
-| TxVote (cv : list (Z * Z))          (* vote output: candidate, votes *)
-| TxCancelVote (cv : list (Z * Z))    (* spending a vote output *)
+| TxVote (cv : list (Z * Z))
+| TxCancelVote (cv : list (Z * Z))
 | TxUnregister (i : Z)
 | TxReview (p m r : Z)
 | TxProposalBudget (amount : Z)
-| TxTrackingRelease (amount : Z).
+| TxTrackingRelease (amount : Z)
+| TxRejectVote (p v : Z)
+(* proposalTracking + Committee.proposalTracking: type, stage, amount of the
+   stage (progress) or of the final payment with its stage (finalized), whether
+   the final-payment flag is raised, all stage ids of the proposal, budget released *)
+| TxTrack (p ty stage amt fstage : Z) (setfinal : bool) (stages : list Z) (release : Z)
+(* proposalWithdraw: all stage ids; payload-v1 record id (0 = payload v0) *)
+| TxWithdraw (p : Z) (stages : list Z) (t : Z)
+| TxAbort (p : Z) (stages : list Z)
+| TxImpeachVote (m v : Z)
+| TxTransferMember (m newstate newpenalty : Z)   (* transferCRMemberState / terminateCRMember *)
+| TxDissolve (h : Z)                             (* tryStartVotingPeriod: election period ends *)
+| TxAssignMany (kv : list (Z * Z)).
+
+Definition restore_all (s : mem) (p : Z) (stages : list Z) : list chg :=
+  map (fun st => Restore (bstat p st) (get (bstat p st) s)) stages.
+Definition close_open (s : mem) (p : Z) (skip : Z) (stages : list Z) : list chg :=
+  flat_map (fun st =>
+     let v := get (bstat p st) s in
+     if negb (st =? skip) && ((v =? Unfinished) || (v =? Rejected))
+     then [Assign (bstat p st) Closed v] else []) stages.
 
 Definition tx_changes (s : mem) (h : Z) (t : tx) : list chg :=
   match t with
@@ -63,18 +140,54 @@ Definition tx_changes (s : mem) (h : Z) (t : tx) : list chg :=
   | TxReview p m r => [Assign (review p m) (r + 1) (get (review p m) s)]
   | TxProposalBudget a => [Add used a]
   | TxTrackingRelease a => [Add used (- a)]
+  | TxRejectVote p v => [Add (reject p) v]
+  | TxTrack p ty stage amt fstage setfinal stages release =>
+      Add (track p) 1 ::
+      (if ty =? TProgress then
+         [Assign (bstat p stage) Withdrawable (get (bstat p stage) s);
+          Assign (wable p stage) (amt + 1) 0;
+          if setfinal then Assign (final p) 1 0 else Restore (final p) 0] ++ restore_all s p stages
+       else if ty =? TRejected then
+         (if (stage =? 0) then [] else [Assign (bstat p stage) Rejected (get (bstat p stage) s)])
+         ++ restore_all s p stages
+       else if ty =? TTerminated then
+         [Assign (termh p) h (get (termh p) s); Assign (pstatus p) Terminated (get (pstatus p) s)]
+         ++ close_open s p (-1) stages ++ restore_all s p stages
+       else if ty =? TFinalized then
+         [Assign (pstatus p) Finished (get (pstatus p) s);
+          Assign (wable p fstage) (amt + 1) 0;
+          Assign (bstat p stage) Withdrawable (get (bstat p stage) s)]
+         ++ close_open s p stage stages ++ restore_all s p stages
+       else [])
+      ++ [Add used (- release)]
+  | TxWithdraw p stages t =>
+      flat_map (fun st =>
+         if negb (get (wable p st) s =? 0) && (get (wn p st) s =? 0)
+         then [Assign (wn p st) (get (wable p st) s) 0] else []) stages
+      ++ flat_map (fun st => if get (bstat p st) s =? Withdrawable
+                             then [Assign (bstat p st) Withdrawn Withdrawable] else []) stages
+      ++ restore_all s p stages
+      ++ (if t =? 0 then [] else [Assign (wtx t) 1 0])
+  | TxAbort p stages =>
+      Assign (pstatus p) Aborted (get (pstatus p) s)
+      :: map (fun st => Assign (bstat p st) Closed (get (bstat p st) s)) stages
+  | TxImpeachVote m v => [Add (imp m) v]
+  | TxTransferMember m ns np =>
+      [Assign (mstate m) ns (get (mstate m) s); Assign (penalty m) np (get (penalty m) s);
+       AddRestore (deposit m) (- MinDeposit) (get (deposit m) s)]
+  | TxDissolve h' =>
+      [Assign inelect 0 (get inelect s); Assign lastvote h' (get lastvote s)]
+  | TxAssignMany kv => map (fun x => Assign (fst x) (snd x) (get (fst x) s)) kv
   end.
 
 Definition mk_changes (s : mem) (h : Z) (txs : list tx) : list chg := flat_map (tx_changes s h) txs.
 
-(* one committed height: its changes, recorded at state s *)
 Definition entry := (Z * list chg)%type.
 
 Definition commit_block (s : mem) (b : Z * list tx) : entry * mem :=
   let cs := mk_changes s (fst b) (snd b) in
   ((fst b, cs), do_all (map to_change cs) s).
 
-(* process blocks in order, keeping the log *)
 Fixpoint process (s : mem) (bs : list (Z * list tx)) : list entry * mem :=
   match bs with
   | [] => ([], s)
@@ -82,10 +195,25 @@ Fixpoint process (s : mem) (bs : list (Z * list tx)) : list entry * mem :=
               let '(log, s2) := process s1 r in (e :: log, s2)
   end.
 
-(* RollbackTo k: entries above k are undone, last first, each with the
-   history's undo order (forward inside one height) *)
 Definition rollback_to (k : Z) (log : list entry) (s : mem) : mem :=
   fold_right (fun (e : entry) s => if k <? fst e then undo_order (map to_change (snd e)) s else s) s log.
 
 Definition direct (k : Z) (s0 : mem) (bs : list (Z * list tx)) : mem :=
   snd (process s0 (filter (fun b => fst b <=? k) bs)).
+
+(* the discipline as a boolean check on one entry recorded at s: every change
+   whose undo assigns has the cell's value in s as undo value, and its cell is
+   not also changed by a plain Add in the same entry *)
+Definition addedb (k : Z) (cs : list chg) : bool :=
+  existsb (fun c => match c with Add k' _ => k =? k' | _ => false end) cs.
+Definition discb (s : mem) (cs : list chg) : bool :=
+  forallb (fun c => match c with
+                    | Add _ _ => true
+                    | Assign k _ old | AddRestore k _ old | Restore k old =>
+                        (old =? get k s) && negb (addedb k cs)
+                    end) cs.
+Fixpoint goodb (s : mem) (bs : list (Z * list tx)) : bool :=
+  match bs with
+  | [] => true
+  | b :: r => discb s (mk_changes s (fst b) (snd b)) && goodb (snd (commit_block s b)) r
+  end.
